@@ -231,7 +231,11 @@ class Task(NamedUIDObject):
             self._scheduled = z3.Bool(f"{self.name}_scheduled")
             # the first task is moved to -1, the second to -2
             # etc.
-            point_in_past = -self._task_number
+            # this point must differ from the points used for unselected workers
+            # (see add_required_resource), they are all taken from the same counter
+            point_in_past = (
+                processscheduler.base.active_problem.get_unique_negative_integer()
+            )
             if isinstance(self, VariableDurationTask):
                 not_scheduled_assertion = z3.And(
                     self._start == point_in_past,  # to past
